@@ -165,3 +165,19 @@ func Noise(rng *rand.Rand, n int) []byte {
 	}
 	return b
 }
+
+// NoiseFramed returns random bytes that always begin with a continuation
+// marker and a metadata length that fits, so a reader gets as far as the
+// (random) flatbuffer instead of allocating a random 31-bit legacy length.
+func NoiseFramed(rng *rand.Rand, n int) []byte {
+	if n < 16 {
+		n = 16
+	}
+	b := make([]byte, n)
+	for i := range b {
+		b[i] = byte(rng.IntN(256))
+	}
+	binary.LittleEndian.PutUint32(b, 0xFFFFFFFF)
+	binary.LittleEndian.PutUint32(b[4:], uint32(8+rng.IntN(n-15)))
+	return b
+}
